@@ -38,6 +38,29 @@ func init() {
 }
 
 func runC11(c *report.Ctx) {
+	checkGatePrimitive(c)
+	// ---- (6) flow objects --------------------------------------------------------
+	c.Clause("6 flow fan-out")
+	checkFlow(c, "initFlowSynchronizationImpl", []string{"CancelWithError", "Clear"}, map[string]string{"CancelWithError": "CancelWithError", "Clear": "Clear"},
+		[][]string{ // arrival, await, optional set-count, optional extra awaiter
+			{"RuntimeReady", "AwaitRuntimeReady", ""},
+			{"RuntimeRestoreReady", "AwaitRuntimeRestoreReady", ""},
+			{"AgentReady", "AwaitAgentsReady", "SetAgentsReadyCount"},
+			{"ExternalAgentRegistered", "AwaitExternalAgentsRegistered", "SetExternalAgentsRegisterCount"},
+		})
+	checkFlow(c, "invokeFlowSynchronizationImpl", []string{"CancelWithError", "Clear", "InitializeBarriers"}, map[string]string{"CancelWithError": "CancelWithError", "Clear": "Clear", "InitializeBarriers": "Reset"},
+		[][]string{
+			{"RuntimeReady", "AwaitRuntimeReady", ""},
+			{"RuntimeResponse", "AwaitRuntimeResponse", ""},
+			{"AgentReady", "AwaitAgentsReady", "SetAgentsReadyCount"},
+		})
+	checkGateCounts(c)
+	checkDeadlineAwait(c)
+}
+
+// checkGatePrimitive holds the rules on the counting latch itself (clauses 1-5). The init barrier (C03), the
+// invoke barrier (C04) and the truthfulness of the init status (C15) are reduced to it, so those checks run it too.
+func checkGatePrimitive(c *report.Ctx) {
 	methods := methodsOf(c, "L/core", "gateImpl")
 	if methods == nil {
 		return
@@ -414,23 +437,6 @@ func runC11(c *report.Ctx) {
 		}
 	}
 
-	// ---- (6) flow objects --------------------------------------------------------
-	c.Clause("6 flow fan-out")
-	checkFlow(c, "initFlowSynchronizationImpl", []string{"CancelWithError", "Clear"}, map[string]string{"CancelWithError": "CancelWithError", "Clear": "Clear"},
-		[][]string{ // arrival, await, optional set-count, optional extra awaiter
-			{"RuntimeReady", "AwaitRuntimeReady", ""},
-			{"RuntimeRestoreReady", "AwaitRuntimeRestoreReady", ""},
-			{"AgentReady", "AwaitAgentsReady", "SetAgentsReadyCount"},
-			{"ExternalAgentRegistered", "AwaitExternalAgentsRegistered", "SetExternalAgentsRegisterCount"},
-		})
-	checkFlow(c, "invokeFlowSynchronizationImpl", []string{"CancelWithError", "Clear", "InitializeBarriers"}, map[string]string{"CancelWithError": "CancelWithError", "Clear": "Clear", "InitializeBarriers": "Reset"},
-		[][]string{
-			{"RuntimeReady", "AwaitRuntimeReady", ""},
-			{"RuntimeResponse", "AwaitRuntimeResponse", ""},
-			{"AgentReady", "AwaitAgentsReady", "SetAgentsReadyCount"},
-		})
-	checkGateCounts(c)
-	checkDeadlineAwait(c)
 }
 
 func normC(v ssa.Value) (ssa.Value, bool) {
